@@ -513,18 +513,21 @@ def isVerboseLine (line : Str) : Bool :=
   | _ => false
 
 /-- one line of `manifest.remap` as `_readRemapFile(..., mode=mode)` treats it: `none` = the code raises,
-`some none` = nothing to add -/
-def parseRemapLine (mode : Option Str) (raw : Str) : Option (Option RemapLine) :=
+`some none` = nothing to add.  `pinned`: the pinned tree skipped the test of the `[mode]` prefix when no mode was
+given (`if mode and mode != ...`). -/
+def parseRemapLineP (pinned : Bool) (mode : Option Str) (raw : Str) : Option (Option RemapLine) :=
   let line := stripComment raw
   if line.isEmpty then some none else
   let modeSet := !falsy mode
   match bracketPrefix line with
   | some (g, rest) =>
-    if modeSet && mode != some g then some none
+    if (if pinned then modeSet && mode != some g else mode != some g) then some none
     else if isVerboseLine rest then some none else parseRemapWords (words rest)
   | none =>
     if modeSet then some none
     else if isVerboseLine line then some none else parseRemapWords (words line)
+
+def parseRemapLine := parseRemapLineP false
 
 end EupsModel.Manifest
 
@@ -533,7 +536,7 @@ namespace EupsModel.Manifest
 /-- the lines of one `manifest.remap` file added to a mapping (`_readRemapFile`); `none` = the code raises -/
 def addRemapLines (pinned : Bool) (m : Mapping) (mode : Option Str) (overwrite : Bool) (lns : List Str) : Option Mapping :=
   lns.foldlM (fun m l =>
-    match parseRemapLine mode l with
+    match parseRemapLineP pinned mode l with
     | none => none
     | some none => some m
     | some (some r) => some (m.addP pinned r.product r.inVersion r.outProduct r.outVersion r.flavor overwrite)) m
